@@ -178,3 +178,24 @@ Theorem C05_new_root_is_directory_disk :
     exists cs es, d = abs_of cs /\ canon_comps cs = true /\ d_at root cs = Some (DDir es).
 Proof. exact disk_confirm_dir. Qed.
 Print Assumptions C05_new_root_is_directory_disk.
+
+(* ---- obligations over the generated table of raw file-system reads (Gen/RawReads.v) ---- *)
+From KV Require Import Gen.RawReads Fs.RawReadAllow Fs.RawReadsProofs.
+
+Theorem Gen_rawreads_ok : forallb site_allowed raw_read_sites = true.
+Proof. exact rawreads_ok. Qed.
+Print Assumptions Gen_rawreads_ok.
+
+Theorem Gen_rawreads_loader_present :
+  existsb (fun s => site_eqb s ("api/internal/loader", "FileLoader.Load", "filesys.FileSystem.ReadFile", 1%N, Loader))
+          raw_read_sites = true /\ List.length loader_sites = 1%nat.
+Proof. exact rawreads_loader_present. Qed.
+Print Assumptions Gen_rawreads_loader_present.
+
+Theorem Gen_rawreads_scanned_core :
+  forallb (fun p => str_in p raw_read_packages)
+          ["api/krusty"; "api/internal/target"; "api/internal/loader"; "api/internal/builtins"; "api/kv";
+           "api/internal/accumulator"; "api/internal/plugins/builtinconfig"; "api/resource"; "api/resmap";
+           "api/types"; "kyaml/filesys"; "kyaml/kio"; "kyaml/openapi"; "kyaml/yaml"] = true.
+Proof. exact rawreads_scanned_core. Qed.
+Print Assumptions Gen_rawreads_scanned_core.
